@@ -60,6 +60,30 @@ pub fn run(c: &Case, par: Option<&Rec>, rep: &mut Report) {
         (None, None) => {}
         _ => rep.violation(c, "C09/output-only-on-one-side/with-code-transform", &format!("serial: {:?} / parallel: {:?}", ser.str("verdict_ct"), par.str("verdict_ct")), &[]),
     }
+    // GC, then every local function edited: iter_local_mut (serial build) vs the public par_iter_local_mut
+    let (es, ep) = (ser.str_or("verdict_ed", "-"), par.str_or("verdict_ed", "-"));
+    for v in [es, ep] {
+        if v.starts_with("iter-mismatch") {
+            rep.violation(c, "C09/parallel-iterator-yields-a-different-set-of-functions", v, &[]);
+        } else if v.starts_with("panic") {
+            rep.violation(c, &format!("C09/panic/{}", crate::basic::panic_signature(v)), &format!("edit through the function iterators: serial: {} / parallel: {}", es, ep), &[]);
+        }
+    }
+    match (ser.get("out_ed"), par.get("out_ed")) {
+        (Some(a), Some(b)) => {
+            rep.count("outputs-edited-through-par_iter_local_mut-compared", 1);
+            if a != b {
+                let pos = a.iter().zip(b.iter()).position(|(x, y)| x != y).unwrap_or(a.len().min(b.len()));
+                rep.violation(c, "C09/serial-vs-parallel-bytes-differ/edited-through-the-function-iterators", &format!("after GC every local function was edited (iter_local_mut vs par_iter_local_mut): lengths {} / {}, first difference at {}", a.len(), b.len(), pos), &[("serial.wasm", a), ("parallel.wasm", b)]);
+            }
+        }
+        (None, None) => {}
+        _ => {
+            if !es.starts_with("iter-mismatch") && !ep.starts_with("iter-mismatch") && !es.starts_with("panic") && !ep.starts_with("panic") {
+                rep.violation(c, "C09/output-only-on-one-side/edited-through-the-function-iterators", &format!("serial: {} / parallel: {}", es, ep), &[]);
+            }
+        }
+    }
     // runs of the parallel build that differed from its own first run
     for (k, v) in &par.fields {
         if let Some(label) = k.strip_prefix("verdict.") {
